@@ -27,7 +27,12 @@ class Inner(ComplexModel):
     w = Unicode
 
 
-class Tagged(ComplexModel):
+class TaggedBase(ComplexModel):
+    __namespace__ = TNS
+    kind = Unicode(sub_name='Kind')          # published under another element name - and inherited by Tagged
+
+
+class Tagged(TaggedBase):
     __namespace__ = TNS
     id = XmlAttribute(Integer)
     name = Unicode
@@ -82,7 +87,7 @@ def build_request(sx, prot, a, o):
             el(sx, 'arr', children=[el(sx, 'integer', T(Integer, x)) if x is not None else NIL('integer') for x in o['arr']])]
     kids += [el(sx, 'many', T(Integer, x)) if x is not None else NIL('many') for x in o['many']]
     kids.append(el(sx, 'tagged', attrib={'id': T(Integer, o['tagged']['id'])},
-                   children=[el(sx, 'name', o['tagged']['name'])]))
+                   children=[el(sx, 'Kind', o['tagged']['kind']), el(sx, 'name', o['tagged']['name'])]))
     kids.append(el(sx, 'Alias', o['alias']))
     return el(sx, 'f', children=[el(sx, 'a', T(Integer, a)), el(sx, 'o', children=kids)])
 
@@ -96,7 +101,7 @@ def mk_values(sx):
          'inner': {'v': sx.int('iv', -9, 9), 'w': sx.text('iw', 2 if deep else 1, alphabet='xy&')},
          'arr': [sx.int('arr%d' % i, 0, 9) for i in range(na)],
          'many': [sx.int('many%d' % i, 0, 9) for i in range(nm)],
-         'tagged': {'id': sx.int('tid', 0, 99), 'name': sx.text('tname', 1, alphabet='pq')},
+         'tagged': {'id': sx.int('tid', 0, 99), 'name': sx.text('tname', 1, alphabet='pq'), 'kind': sx.text('tkind', 1, alphabet='uv')},
          'alias': sx.text('alias', 1, alphabet='kl')}
     # an item of either sequence may be null: it keeps its place (as an xsi:nil element) in both directions
     hole = sx.choose('null_item', [None, ('arr', 0), ('arr', 1), ('many', 1)] if deep else [None, ('arr', 1)])
@@ -116,7 +121,8 @@ def matches(sx, got, o):
         return False
     ok = [sx.eq(got.n, o['n']), sx.eq(got.s, o['s']), sx.eq(got.b, o['b']), sx.eq(got.inner.v, o['inner']['v']),
           sx.eq(got.inner.w, o['inner']['w']), sx.eq(got.tagged.id, o['tagged']['id']),
-          sx.eq(got.tagged.name, o['tagged']['name']), sx.eq(got.alias, o['alias']), got.opt is None,
+          sx.eq(got.tagged.name, o['tagged']['name']), sx.eq(got.tagged.kind, o['tagged']['kind']), sx.eq(got.alias, o['alias']),
+          got.opt is None,
           got.id is None]             # an attribute of a child element is not an attribute of the object
     for key in ('arr', 'many'):
         g = getattr(got, key)
@@ -147,7 +153,7 @@ def decode_response(root, pname):
             'inner': None if inner is None else {'v': txt(inner, 'v'), 'w': txt(inner, 'w')},
             'arr': None if arr is None else [None if c.get('{%s}nil' % XSI_NS) == 'true' else c.text for c in arr],
             'many': [None if c.get('{%s}nil' % XSI_NS) == 'true' else c.text for c in res.findall(q('many'))],
-            'tagged': None if tagged is None else {'id': tagged.get('id'), 'name': txt(tagged, 'name')},
+            'tagged': None if tagged is None else {'id': tagged.get('id'), 'name': txt(tagged, 'name'), 'kind': txt(tagged, 'Kind')},
             'alias': txt(res, 'Alias'), 'opt': txt(res, 'opt'),
             'order': [etree.QName(c).localname for c in res]}
 
@@ -212,7 +218,7 @@ def route_request(sx, p):
             'inner': {'v': T(Integer, o['inner']['v']), 'w': o['inner']['w']},
             'arr': [None if x is None else T(Integer, x) for x in o['arr']] if o['arr'] else None,
             'many': [None if x is None else T(Integer, x) for x in o['many']],
-            'tagged': {'id': T(Integer, o['tagged']['id']), 'name': o['tagged']['name']},
+            'tagged': {'id': T(Integer, o['tagged']['id']), 'name': o['tagged']['name'], 'kind': o['tagged']['kind']},
             'alias': o['alias'], 'opt': None}
     order = resp.pop('order')
     if resp['arr'] == []:
